@@ -29,7 +29,7 @@ from pyvc.core import ctx, sreal, land, lor, lnot, implies, lift, SNum, conc, it
 from pyvc.arr import sym_array, SArr
 from pyvc.unit import unit, Unit
 from pyvc.npmodel import np as NP
-from pyvc.npshim import Shim
+from pyvc.npshim import Shim, sym_real_array
 
 FS = "wannierberri/calculators/static.py"
 FD = "wannierberri/data_K/data_K.py"
@@ -223,6 +223,78 @@ _static_unit(0, 2, True, False, hole_like=True)
 _static_unit(1, 2, True, False, hole_like=True, use_factor=False)
 _static_unit(2, 4, True, False, tiers=("thorough",))
 _static_unit(3, 4, True, False, tiers=("thorough",))
+
+
+@unit("C13", "StaticCalculator.__call__ with tetrahedron weights: out[e] = c/(V nk) sum_k sum_groups w_group[e] trace_group (the band selection already sits in the weights)",
+      scope="shape:2 k-points, 4 bands, 2 Fermi levels, 3 groups per k-point; additive and non-additive formulas; with and without select_bands; hole_like", expect_min=4)
+def _static_tetra(U):
+    results = []
+
+    class ER:
+        def __init__(self, Efermi, data, **kw):
+            results.append((Efermi, data, kw))
+    shim = Shim()
+    wsb = U.fn(FU, "weight_select_bands", globs=dict(np=rnp), model=False)
+    init = U.fn(FS, "StaticCalculator.__init__", globs=dict(np=shim, copy=copy, super=lambda: _SuperInit()), model=False)
+    call = U.fn(FS, "StaticCalculator.__call__", globs=dict(np=shim, defaultdict=defaultdict, ceil=math.ceil, weight_select_bands=wsb,
+                                                           EnergyResult=ER, K__Result=None, cached_einsum=rnp.einsum), model=False)
+
+    def body():
+        del results[:]
+        additive = bool(ctx().choose(2, "additive formula"))
+        sel = [None, rnp.array([1, 2])][ctx().choose(2, "select_bands")]
+        hole = bool(ctx().choose(2, "hole_like"))
+        fder = 0 if hole else ctx().choose(2, "fder")
+        Ef = rnp.array([1.0, 1.25])
+        nk, NB = 2, 4
+        groups = [[(0, 1), (1, 3), (3, 4)], [(0, 2), (2, 3), (3, 4)]]
+        W = [{g: sym_real_array("w_%d_%d_%d" % (ik, g[0], g[1]), (2,)) for g in groups[ik]} for ik in range(nk)]
+        asked = {}
+
+        class Formula:
+            ndim = 0
+            transformTR, transformInv = "TR", "INV"
+
+            def __init__(self, data_K, **kw):
+                self.additive = additive
+
+            def trace(self, ik, inn, out):
+                if additive:
+                    return rnp.array(sreal("T_%d_%d_%d" % (ik, int(inn[0]), int(inn[-1]) + 1)), dtype=object)
+                return rnp.array(sreal("C_%d_%d" % (ik, len(inn))) if len(inn) else lift(0.0), dtype=object)
+        me = _Obj()
+        me.degen_thresh, me.degen_Kramers, me.save_mode, me.comment, me.fder = 1e-4, False, "bin", "c", fder
+        init(me, Ef, tetra=True, constant_factor=3.0, use_factor=True, hole_like=hole, k_resolved=False, Formula=Formula, fder=fder, select_bands=sel)
+        data = _Obj()
+        data.nk, data.num_wann, data.cell_volume = nk, NB, 2.0
+        data.tetraWeights = _Obj()
+        data.tetraWeights.weights_all_band_groups = lambda Efermi, **kw: (asked.update(kw, Efermi=Efermi), [dict(w) for w in W])[1]
+        call(me, data)
+        _ef, out, kw = results[0]
+        U.ensure("the tetrahedron weights are requested for the calculator's own Fermi levels, derivative order (-1 for hole-like), thresholds and band selection",
+                 asked.get("Efermi") is me.Efermi and asked.get("der") == (-1 if hole else fder) and asked.get("degen_thresh") == 1e-4 and asked.get("degen_Kramers") is False
+                 and (asked.get("select_bands") is sel or (sel is not None and rnp.array_equal(asked.get("select_bands"), sel))))
+
+        def T(ik, g):
+            if additive:
+                return sreal("T_%d_%d_%d" % (ik, g[0], g[1]))
+            return (sreal("C_%d_%d" % (ik, g[1])) if g[1] else 0) - (sreal("C_%d_%d" % (ik, g[0])) if g[0] else 0)
+        sgn = -3.0 if (hole and fder == 0) else 3.0
+        ok = tuple(out.shape) == (2,)
+        for e in range(2):
+            want = 0
+            for ik in range(nk):
+                for g in groups[ik]:
+                    want = want + W[ik][g][e] * T(ik, g)
+            ok = ok and _same_lin_poly(out[e], want * sgn / 2.0 / nk)
+        U.ensure("out[e] = c/(V nk) sum_k sum_groups w[e] * trace(group): every weight enters once, as given", ok)
+    U.run(body, check_feasible=False)
+    U.external("TetraWeights.weights_all_band_groups: C14 (the band-selection factor is part of the weights it returns)")
+
+
+def _same_lin_poly(a, b):
+    """equality of two polynomial expressions in the symbols (products weight x trace): decided by z3"""
+    return _valid(lift(a) == lift(b))
 
 
 # ------------------------------------------------------------------ band groups in / below the window
